@@ -8,7 +8,7 @@ cd /repo || exit 2
 git diff --quiet || { echo "selftest: /repo has uncommitted changes"; exit 2; }
 which=${1:-all}; suite=$2
 out=/verif/selftest/RESULTS.txt
-declare -A EXPECT=( [M01]="C05 C09" [M02]="C05" [M03]="C17" [M04]="C17" [M05]="C17" [M06]="C12" [M07]="C11" [M08]="C01" [M09]="C02" [M10]="C03" [M11]="C13" [M12]="C16" [M13]="C15" [M14]="C08" [M15]="C09" [M16]="C02" [M17]="C09" [M18]="C17" [M19]="C06" [M20]="C08 C06" )
+declare -A EXPECT=( [M01]="C05 C09" [M02]="C05" [M03]="C17" [M04]="C17" [M05]="C17" [M06]="C12" [M07]="C11" [M08]="C01" [M09]="C02" [M10]="C03" [M11]="C13" [M12]="C16" [M13]="C15" [M14]="C08" [M15]="C09" [M16]="C02" [M17]="C09" [M18]="C17" [M19]="C06" [M20]="C08 C06" [M21]="C05" )
 ALL="C01 C02 C03 C04 C05 C06 C07 C08 C09 C10 C11 C12 C13 C14 C15 C16 C17"
 run_checks() { # prints "id=exit" for each
   for id in $1; do (cd /verif && bin/vcheck $id --tier quick >/tmp/selftest.$id.out 2>&1); echo -n "$id=$? "; done
